@@ -10,9 +10,9 @@ import Mathlib.Data.List.Nodup
   (`pyEval_pyRepr`: the same for `repr` itself — the non-multiline branch)
 * `C07_str_table_ok`, `C07_str_total` : `str(matcher)` is total (table of `__str__` resolutions read from the tree)
 * `C07_describe_total`, `C07_mismatch_error_str_total` : `describe()`, `get_details()`, `str(MismatchError)` are total
-* `C07_predicate_mismatch_built_partial`, `C07_predicate_tuple_witness` : finding `predicateTupleMatchee`
+* `C07_predicate_mismatch_built`  : a well-formed `MatchesPredicate` returns its Mismatch for every matchee (tuples too)
 * `C07_assertThat_iff`, `C07_expectThat`, `C07_details_nonclobbering` (+ `uniq_fresh`, `freshAll_iff`)
-* `holds_model_partial`          : the executable spec holds of the model's trace outside the finding class
+* `holds_model`                  : the executable spec holds of the model's trace, for every input
 -/
 namespace TTV.Props.C07
 open TTV.TextRepr
@@ -655,66 +655,51 @@ theorem zipWith_all_none (f : Nat → V → R) : ∀ (r : List Nat) (n : List V)
     · exact zipWith_all_none f r n h d hd
 
 mutual
-/-- **C07 (`describe()` is total).**  For every well-formed stock matcher expression (any depth; the
-messages of `MatchesPredicate` leaves have one conversion, as documented), every value and both set
-orders: describing the mismatch that `match()` returned succeeds. -/
-theorem C07_describe_total (sel : Bool) : ∀ (m : M) (v : V), wf m = true → descr sel m v = none
-  | .leaf l, v, h => by
-    cases l with
-    | predicate id msg dom res =>
-      simp only [wf, beq_iff_eq] at h
-      subst h
-      simp [descr, leafDescr]
-    | _ => simp [descr, leafDescr]
-  | .excTypeV cs vm, v, h => by
-    simp only [wf] at h
+/-- **C07 (`describe()` is total).**  For every stock matcher expression (any depth, any constructor
+arguments), every value and both set orders: describing the mismatch that `match()` returned succeeds. -/
+theorem C07_describe_total (sel : Bool) : ∀ (m : M) (v : V), descr sel m v = none
+  | .leaf l, v => by simp [descr, leafDescr]
+  | .excTypeV cs vm, v => by
     simp only [descr]
     split
     · split
-      · exact C07_describe_total sel vm _ h
+      · exact C07_describe_total sel vm _
       · rfl
     · rfl
-  | .raises em, v, h => by
-    simp only [wf] at h
+  | .raises em, v => by
     simp only [descr]
     split
     · rfl
-    · exact C07_describe_total sel em _ h
-  | .not m, _, _ => by simp only [descr]; exact C07_str_total m
-  | .all fo ms, v, h => by
-    simp only [wf] at h
+    · exact C07_describe_total sel em _
+  | .not m, _ => by simp only [descr]; exact C07_str_total m
+  | .all fo ms, v => by
     simp only [descr]
-    exact descrParts_none _ _ _ (descrRow_none sel ms v h)
-  | .any ms, v, h => by
-    simp only [wf] at h
+    exact descrParts_none _ _ _ (descrRow_none sel ms v)
+  | .any ms, v => by
     simp only [descr]
-    exact descrParts_none _ _ _ (descrRow_none sel ms v h)
-  | .allMatch m, v, h => by
-    simp only [wf] at h
+    exact descrParts_none _ _ _ (descrRow_none sel ms v)
+  | .allMatch m, v => by
     simp only [descr]
     split
     · rfl
     · apply descrParts_none
       intro d hd
       obtain ⟨x, _, rfl⟩ := List.mem_map.mp hd
-      exact C07_describe_total sel m x h
-  | .anyMatch m, v, h => by
-    simp only [wf] at h
+      exact C07_describe_total sel m x
+  | .anyMatch m, v => by
     simp only [descr]
     split
     · rfl
     · apply descrParts_none
       intro d hd
       obtain ⟨x, _, rfl⟩ := List.mem_map.mp hd
-      exact C07_describe_total sel m x h
-  | .listwise fo ms, v, h => by
-    simp only [wf] at h
+      exact C07_describe_total sel m x
+  | .listwise fo ms, v => by
     simp only [descr]
     split
     · rfl
-    · exact descrParts_none _ _ _ (descrZip_none sel ms _ h)
-  | .setwise _ _ ms, v, h => by
-    simp only [wf] at h
+    · exact descrParts_none _ _ _ (descrZip_none sel ms _)
+  | .setwise _ _ ms, v => by
     simp only [descr]
     split
     · rfl
@@ -725,49 +710,42 @@ theorem C07_describe_total (sel : Bool) : ∀ (m : M) (v : V), wf m = true → d
         · apply descrParts_none
           apply zipWith_all_none
           intro i x
-          exact getD_all_none _ (descrRow_none sel ms x h) i
-  | .structure attrs ms, v, h => by
-    simp only [wf] at h
+          exact getD_all_none _ (descrRow_none sel ms x) i
+  | .structure attrs ms, v => by
     simp only [descr]
-    exact descrParts_none _ _ _ (descrZip_none sel ms _ h)
-  | .dict _ ks ms, v, h => by
-    simp only [wf] at h
+    exact descrParts_none _ _ _ (descrZip_none sel ms _)
+  | .dict _ ks ms, v => by
     simp only [descr]
     split
-    · exact descrParts_none _ _ _ (descrZip_none sel ms _ h)
+    · exact descrParts_none _ _ _ (descrZip_none sel ms _)
     · rfl
-  | .annotate m, v, h => by
-    simp only [wf] at h
+  | .annotate m, v => by
     simp only [descr]
-    exact C07_describe_total sel m v h
-  | .after f _ m, v, h => by
-    simp only [wf] at h
+    exact C07_describe_total sel m v
+  | .after f _ m, v => by
     simp only [descr]
     split
-    · exact C07_describe_total sel m _ h
+    · exact C07_describe_total sel m _
     · rfl
-theorem descrRow_none (sel : Bool) : ∀ (ms : List M) (v : V), wfL ms = true → ∀ d ∈ descrRow sel ms v, d = none
-  | [], _, _, d, hd => by simp [descrRow] at hd
-  | m :: ms, v, h, d, hd => by
-    simp only [wfL, Bool.and_eq_true] at h
+theorem descrRow_none (sel : Bool) : ∀ (ms : List M) (v : V), ∀ d ∈ descrRow sel ms v, d = none
+  | [], _, d, hd => by simp [descrRow] at hd
+  | m :: ms, v, d, hd => by
     simp only [descrRow, List.mem_cons] at hd
     rcases hd with rfl | hd
-    · exact C07_describe_total sel m v h.1
-    · exact descrRow_none sel ms v h.2 d hd
-theorem descrZip_none (sel : Bool) : ∀ (ms : List M) (vs : List (Option V)), wfL ms = true →
+    · exact C07_describe_total sel m v
+    · exact descrRow_none sel ms v d hd
+theorem descrZip_none (sel : Bool) : ∀ (ms : List M) (vs : List (Option V)),
     ∀ d ∈ descrZip sel ms vs, d = none
-  | [], vs, _, d, hd => by simp [descrZip] at hd
-  | _ :: _, [], _, d, hd => by simp [descrZip] at hd
-  | m :: ms, none :: vs, h, d, hd => by
-    simp only [wfL, Bool.and_eq_true] at h
+  | [], vs, d, hd => by simp [descrZip] at hd
+  | _ :: _, [], d, hd => by simp [descrZip] at hd
+  | m :: ms, none :: vs, d, hd => by
     simp only [descrZip] at hd
-    exact descrZip_none sel ms vs h.2 d hd
-  | m :: ms, some v :: vs, h, d, hd => by
-    simp only [wfL, Bool.and_eq_true] at h
+    exact descrZip_none sel ms vs d hd
+  | m :: ms, some v :: vs, d, hd => by
     simp only [descrZip, List.mem_cons] at hd
     rcases hd with rfl | hd
-    · exact C07_describe_total sel m v h.1
-    · exact descrZip_none sel ms vs h.2 d hd
+    · exact C07_describe_total sel m v
+    · exact descrZip_none sel ms vs d hd
 end
 
 end TTV.Props.C07
@@ -956,73 +934,39 @@ theorem coarse_stripAnnot : ∀ (m : M), coarse m = coarse (stripAnnot m)
   | .dict _ _ _ => rfl
   | .after _ _ _ => rfl
 
-theorem wf_withMessage (a : Bool) (m : M) : wf (withMessage a m) = wf m := by
-  cases a <;> simp [withMessage, wf]
-
 theorem validText_iff (b : Bool) (s : List Nat) : validText b s = true ↔ ∀ c ∈ s, valid b c := by
   unfold validText valid
   cases b <;> simp
 
-/-- **C07 (a well-formed `MatchesPredicate` returns its Mismatch)** unless the matchee is a tuple.
-Full statement (false, finding `predicateTupleMatchee`): for every value `v` of which the predicate is
-false, `match()` returns a Mismatch. -/
-theorem C07_predicate_mismatch_built_partial (sel : Bool) (id : Nat) (dom : List V) (res : List Verdict) (v : V)
-    (hno : lookupTbl v dom res = .mismatch) (hv : ∀ e, v ≠ .exc e true) :
+/-- **C07 (a well-formed `MatchesPredicate` returns its Mismatch)**: for every value `v` of which the
+predicate is false — a tuple included, the message is formatted with `(v,)` — `match()` returns a Mismatch. -/
+theorem C07_predicate_mismatch_built (sel : Bool) (id : Nat) (dom : List V) (res : List Verdict) (v : V)
+    (hno : lookupTbl v dom res = .mismatch) :
     matchImpl sel (.leaf (.predicate id .one dom res)) v = .mismatch := by
-  simp only [matchImpl, leafImpl, hno]
-  have : fmtErr .one v = false := by
-    unfold fmtErr
-    split
-    · rename_i e; exact absurd rfl (hv e)
-    · cases mappingLike v <;> simp
-  simp [this]
+  simp [matchImpl, leafImpl, hno, fmtErr]
 
-/-- the model exhibits the defect: `MatchesPredicate(lambda x: False, '%s is not ok')` on an exc_info tuple -/
-def witnessI : Input :=
-  .describe (.leaf (.predicate 1 .one [.exc ⟨.valueError, 1⟩ true] [.mismatch])) (.exc ⟨.valueError, 1⟩ true) false false
-theorem C07_predicate_tuple_witness :
-    predicateTupleMatchee witnessI = true ∧ holds witnessI (model witnessI) = false ∧
-    matchImpl true (.leaf (.predicate 1 .one [.exc ⟨.valueError, 1⟩ true] [.mismatch])) (.exc ⟨.valueError, 1⟩ true)
-      = .raised .typeError := by
-  decide
-
-/-- The executable specification holds of the model's trace for every input outside the finding class
-`predicateTupleMatchee`.  Full statement (false because of that finding): `∀ i, holds i (model i) = true`. -/
-theorem holds_model_partial (i : Input) (h : predicateTupleMatchee i = false) : holds i (model i) = true := by
+/-- The executable specification holds of the model's trace, for every input. -/
+theorem holds_model (i : Input) : holds i (model i) = true := by
   simp only [holds, clauses, List.all_cons, List.all_nil, Bool.and_true, Bool.and_eq_true]
   cases i with
   | describe m v annotated verbose =>
     have hstr := C07_str_total (withMessage annotated m)
+    have hd := C07_describe_total true (withMessage annotated m) v
     refine ⟨?_, ?_, ?_, ?_, rfl, rfl, rfl, rfl⟩
     · simp [cStrTotal, model, hstr]
-    · simp only [cDescribeTotal, model]
-      cases hw : wf m with
-      | false => simp
-      | true =>
-        have hd := C07_describe_total true (withMessage annotated m) v (by rw [wf_withMessage]; exact hw)
-        simp [hd]
-    · simp only [cErrorStrTotal, model]
-      cases hw : wf m with
-      | false => simp
-      | true =>
-        have hd := C07_describe_total true (withMessage annotated m) v (by rw [wf_withMessage]; exact hw)
-        simp [hd, hstr, seqR]
+    · simp [cDescribeTotal, model, hd]
+    · simp [cErrorStrTotal, model, hd, hstr, seqR]
     · simp only [cMismatchBuilt, model]
       split
       · rename_i hp
         unfold predicateSaysNo at hp
-        simp only [predicateTupleMatchee] at h
-        generalize hm' : withMessage annotated m = m' at hp h ⊢
+        generalize hm' : withMessage annotated m = m' at hp ⊢
         have hr : matchImpl true m' v = .mismatch := by
           rw [matchImpl_stripAnnot]
           split at hp
           · rename_i id dom res heq
-            rw [heq] at h ⊢
-            simp only [Bool.true_and] at h
-            have hno : lookupTbl v dom res = .mismatch := by simpa using hp
-            have hv : ∀ e, v ≠ .exc e true := by
-              intro e he; subst he; simp at h
-            exact C07_predicate_mismatch_built_partial true id dom res v hno hv
+            rw [heq]
+            exact C07_predicate_mismatch_built true id dom res v (by simpa using hp)
           · simp at hp
         simp [hr, canon]
       · rfl
@@ -1053,13 +997,13 @@ theorem holds_model_partial (i : Input) (h : predicateTupleMatchee i = false) : 
           obtain ⟨added, h1, h2, h3⟩ := C07_details_nonclobbering a ds hm (by simp [ha])
           simp [h1, h2, h3, ha]
 
-/-- **C07 (`str(MismatchError)` is total)**, verbose or not, annotated or not: for every well-formed
+/-- **C07 (`str(MismatchError)` is total)**, verbose or not, annotated or not: for every
 expression and every value, `str(matcher)`, `describe()`, `get_details()` and `str(MismatchError(...))`
 all succeed in the model. -/
-theorem C07_mismatch_error_str_total (m : M) (v : V) (annotated verbose : Bool) (hw : wf m = true) :
+theorem C07_mismatch_error_str_total (m : M) (v : V) (annotated verbose : Bool) :
     ∃ r, model (.describe m v annotated verbose) = .describe none r none none none := by
   have hstr := C07_str_total (withMessage annotated m)
-  have hd := C07_describe_total true (withMessage annotated m) v (by rw [wf_withMessage]; exact hw)
+  have hd := C07_describe_total true (withMessage annotated m) v
   refine ⟨canon (withMessage annotated m) (matchImpl true (withMessage annotated m) v), ?_⟩
   simp [model, hstr, hd, seqR]
 
@@ -1069,10 +1013,11 @@ example : textRepr false (fun _ => true) (some true) [97, 39, 39, 39, 92, 39]
     = [39, 39, 39, 92, 10, 97, 92, 39, 39, 39, 92, 92, 92, 39, 39, 39, 39] := by decide
 example : pyEval false (textRepr false (fun _ => true) none [39, 10, 34, 233, 0]) = some [39, 10, 34, 233, 0] := by decide
 example : valid false 0x10ffff ∧ valid true 255 := by simp [valid]
--- a mismatch whose description needs str() of a sub-matcher, and one that is out of the documented domain
+-- a mismatch whose description needs str() of a sub-matcher
 example : matchImpl true (.not (.leaf .always)) (.int 1) = .mismatch ∧ descr true (.not (.leaf .always)) (.int 1) = none := by decide
-example : wf (.leaf (.predicate 0 .empty [] [])) = false
-    ∧ descr true (.leaf (.predicate 0 .empty [] [])) (.dict [] []) = some .notImplementedError := by decide
+-- a MatchesPredicate on an exc_info tuple returns its Mismatch; built outside its domain (empty message) it raises
+example : matchImpl true (.leaf (.predicate 1 .one [.exc ⟨.valueError, 1⟩ true] [.mismatch])) (.exc ⟨.valueError, 1⟩ true) = .mismatch
+    ∧ matchImpl true (.leaf (.predicate 1 .empty [.dict [] []] [.mismatch])) (.dict [] []) = .raised .typeError := by decide
 -- expectThat with colliding names: "Failed expectation" exists, the detail d2 exists twice
 example : (assertModel ⟨.expectThat, [⟨0, 0⟩, ⟨2, 0⟩, ⟨2, 1⟩], some [2]⟩).names
     = [⟨0, 0⟩, ⟨2, 0⟩, ⟨2, 1⟩, ⟨2, 2⟩, ⟨0, 1⟩] := by decide
